@@ -6,7 +6,8 @@
 // methods on ASCII strings; `UBig::from_str_radix` is seen through its documented contract (positional value).
 // (The wrapper `FBig::from_str_native` is unit float_parse_fbig: FN names must be unique inside a unit.)
 // The former defect regions (an inner '+', a scale close to isize::MIN) are repaired in the code (proposed_fixes IO2, IO3):
-// no exclusion is left; isize overflow inside Repr::new (normalisation) is not modelled by its stub.
+// no exclusion is left but the RESOURCE LIMIT `parse_room` (lib/fio_parse_stubs.rs): the exponent of the leading digit of the
+// written value must fit isize, else `Repr::new` (normalisation) overflows the exponent: a documented panic (C16), not modelled.
 #![allow(unused_imports, unused_variables, dead_code, non_snake_case, unused_mut, unused_parens, unused_braces, non_camel_case_types, unused_assignments)]
 use vstd::prelude::*;
 verus! {
